@@ -939,6 +939,34 @@ pub fn check_c13(c: &CheckCtx, _ix: &Index) {
             _ => {}
         }
     }
+    // Once every receiver handle is inside its final drop/unsubscribe call nothing is consumed any
+    // more. Each send invoked after that point is either still limited by a stream whose removal has
+    // not taken effect yet (and that stream stands still) or finds no stream at all: whatever the
+    // order in which the removals take effect, at most N of these sends can be accepted.
+    let leaving: Vec<u64> = c.h.iter().filter(|e| matches!(e.op, Op::DropRx | Op::Unsub)).map(|e| e.t_call).collect();
+    if leaving.len() >= created {
+        let all_leaving_at = *leaving.iter().max().unwrap();
+        let late_ok: Vec<&crate::hist::Event> = c
+            .h
+            .iter()
+            .filter(|e| e.op.is_send() && e.t_call > all_leaving_at && e.res == Res::Ok)
+            .collect();
+        if late_ok.len() as u64 > c.n {
+            violation(
+                "C03,C13",
+                "capacity-exceeded",
+                "capacity-exceeded:accepted-after-every-receiver-began-leaving".to_string(),
+                format!(
+                    "{} sends were invoked after every receiver handle had entered its final drop/unsubscribe (by {}) and were accepted, but the queue holds N={} values and nothing is consumed any more; first: {} last: {}",
+                    late_ok.len(),
+                    all_leaving_at,
+                    c.n,
+                    late_ok[0].show(),
+                    late_ok[late_ok.len() - 1].show()
+                ),
+            );
+        }
+    }
     if drops.len() < created {
         return;
     }
